@@ -8,7 +8,7 @@ import RichModel.Lemmas.LayoutSmin
 The cases of the structural induction behind C01 (`render_fits`) that do not involve a table: text, the framing
 renderables, the transparent wrappers, groups, rule, bars, tree.  Each case is a lemma `good_…`; the pass-through
 constructors take the induction hypothesis as an argument.  The table / columns cases are in `LayoutFitsTable.lean`,
-the induction itself in `Props/C01.lean`.
+the induction itself (`good` / `goodL`) in `LayoutFitsTable.lean` as well; `Props/C01.lean` only states the theorems.
 -/
 namespace RichModel.Layout
 open RichModel RichModel.Frames
